@@ -71,8 +71,15 @@ def check(case, ctx):
         big = max(abs(a1), abs(a2), abs(a3))
         # float sin/cos of arguments up to 1e3 are exact to 1 ulp; reference uses the same libm
         tol = 1e-12
+        # history: the same constructors were just called with other arguments and the caller still holds the results
+        b1, b2, b3 = a3 + 0.3, a1 - 0.2, a2 + 0.1
         xfab.CHECKS._run_checks = False
-        E = mod.euler_to_u(a1, a2, a3)
+        for lab, val in (("euler_to_u", mod.euler_to_u(b1, b2, b3)), ("form_omega_mat", mod.form_omega_mat(b1)),
+                         ("form_omega_mat(same omega)", mod.form_omega_mat(a1)),
+                         ("form_omega_mat_general", mod.form_omega_mat_general(a1, b2, b3)), ("detect_tilt", mod.detect_tilt(b1, b2, b3)),
+                         ("quart_to_omega", mod.quart_to_omega(case["omega_deg"], b2, b3)), ("rod_to_u", mod.rod_to_u([b1, b2, b3]))):
+            ctx.keep("%s.%s" % (m, lab), val)
+        E = ctx.keep("%s.euler_to_u(main)" % m, mod.euler_to_u(a1, a2, a3))
         if _proper(ctx, "euler_to_u", E, m):
             ctx.near("euler=RzRxRz", O.maxabs(E - O.euler_ref(a1, a2, a3)), tol, "euler_to_u/formula",
                      "%s.euler_to_u(%r,%r,%r) != Rz.Rx.Rz" % (m, a1, a2, a3))
@@ -81,10 +88,10 @@ def check(case, ctx):
         E2 = mod.euler_to_u(i1, i2, i3)     # in range: must be accepted with checks on
         ctx.near("euler(in-range)=RzRxRz", O.maxabs(np.asarray(E2, float) - O.euler_ref(i1, i2, i3)), tol, "euler_to_u/formula",
                  "%s.euler_to_u in range differs" % m)
-        Om = mod.form_omega_mat(a1)
+        Om = ctx.keep("%s.form_omega_mat(main)" % m, mod.form_omega_mat(a1))
         if _proper(ctx, "form_omega_mat", Om, m):
             ctx.near("omega=Rz", O.maxabs(Om - O.Rz(a1)), tol, "form_omega_mat/formula", "%s.form_omega_mat(%r) != Rz" % (m, a1))
-        Og = mod.form_omega_mat_general(a1, a2, a3)
+        Og = ctx.keep("%s.form_omega_mat_general(main)" % m, mod.form_omega_mat_general(a1, a2, a3))
         if _proper(ctx, "form_omega_mat_general", Og, m):
             ctx.near("omega_general=RxRyRz", O.maxabs(Og - O.Rx(a2) @ O.Ry(a3) @ O.Rz(a1)), tol, "form_omega_mat_general/formula",
                      "%s.form_omega_mat_general(%r,%r,%r) != Rx(chi)Ry(wedge)Rz(omega)" % (m, a1, a2, a3))
@@ -126,6 +133,11 @@ def check(case, ctx):
     if case["f32"]:
         U = U.astype(np.float32).astype(float)
     U = O.ro(U)
+    Uarg = U
+    if S.rot_is_axis(U, 0.0) and case.get("elem") is None and not case["f32"]:
+        # an exactly axis-aligned orientation may well be typed as integers or nested lists by the caller
+        Uarg = np.round(U).astype(int) if case["rot"].get("i", 0) % 2 else [[int(round(x)) for x in row] for row in U]
+        ctx.event("inv/integer-typed-matrix")
     defect = O.ortho_defect(U)
     if defect < 1e-12:
         defect = 0.0            # an exact (to rounding) proper rotation: the property's own 1e-6 applies
@@ -148,7 +160,7 @@ def check(case, ctx):
     ctx.event("inv/near-gimbal" if near else ("inv/axis-aligned" if axis else "inv/generic"))
     if case["f32"]:
         ctx.event("inv/float32-rounded")
-    ang = np.asarray(mod.u_to_euler(U), float)
+    ang = np.asarray(ctx.keep("%s.u_to_euler" % m, mod.u_to_euler(Uarg)), float)
     if ang.shape != (3,) or not np.all(np.isfinite(ang)):
         ctx.fail("u_to_euler/non-finite", "%s.u_to_euler returned %r for U=%r" % (m, ang.tolist(), U.tolist()))
     else:
@@ -160,7 +172,7 @@ def check(case, ctx):
                  "%s.u_to_euler(U) = %r rebuilds a different matrix (dev %g) for U=%r" % (m, ang.tolist(), O.maxabs(O.euler_ref(p1, P, p2) - U), U.tolist()))
     rang = O.rot_angle_deg(U)
     if 180 - rang > 1e-4:   # property excludes 180 deg +- 1e-6 deg; the trace cannot resolve the angle closer than ~1e-5 deg
-        r = np.asarray(mod.u_to_rod(U), float)
+        r = np.asarray(ctx.keep("%s.u_to_rod" % m, mod.u_to_rod(Uarg)), float)
         if r.shape != (3,) or not np.all(np.isfinite(r)):
             ctx.fail("u_to_rod/non-finite", "%s.u_to_rod returned %r" % (m, r.tolist()))
         else:
